@@ -26,7 +26,14 @@ def setup(ctx):
 def gen_case(ctx, i):
     rng = ctx.rng
     content = C.gen_content(rng)
-    return {"content": content, "queries": cc.standard_queries(rng, content), "decl_seed": rng.randrange(1 << 30)}
+    case = {"content": content, "queries": cc.standard_queries(rng, content), "decl_seed": rng.randrange(1 << 30)}
+    plain = [k for k, v in content["pars"] if "v" in v]
+    if plain and rng.random() < 0.5:
+        # ask, change plain parameter values through the API, ask again
+        ks = rng.sample(plain, rng.randint(1, len(plain)))
+        case["edit"] = {"how": rng.choice(["update_parameter", "update_parameters", "scale_parameter"]),
+                        "pars": [[k, str(rng.choice([1, 2, 4, 5]))] for k in ks]}
+    return case
 
 
 def judge_case(ctx, case, R, M, S):
@@ -34,15 +41,22 @@ def judge_case(ctx, case, R, M, S):
         ctx.hist["skipped_inexact"] = ctx.hist.get("skipped_inexact", 0) + 1
         return
     ctx.count(case, C.shape_of(case["content"]))
-    for i, q in enumerate(case["queries"]):
+    nq = len(case["queries"])
+    for i in range(len(R)):
+        q = case["queries"][i % nq]
         sub = {"content": case["content"], "queries": [q], "decl_seed": case["decl_seed"]}
-        ctx.judge(sub, R[i], S[i], None if M is None else M[i], what=f"query {q[0]}")
+        if i >= nq:
+            sub["edit"] = case["edit"]
+        Ri, Si, Mi = R[i], S[i], None if M is None else M[i]
+        if i >= nq:  # a sub-case replays both rounds; compare both
+            Ri, Si, Mi = [R[i - nq], R[i]], [S[i - nq], S[i]], None if M is None else [M[i - nq], M[i]]
+        ctx.judge(sub, Ri, Si, Mi, what=f"query {q[0]}" + (" after parameter edit" if i >= nq else ""))
     # every way of asking returns the same numbers (rhs vs call; fluxes vs args)
     by = {}
     for i, q in enumerate(case["queries"]):
         by.setdefault((q[0], str(q[1:])), R[i])
     for i, q in enumerate(case["queries"]):
-        if q[0] == "call" and "ok" in R[i]:
+        if q[0] == "call" and isinstance(R[i], dict) and "ok" in R[i]:
             st = [[k, v] for (k, _), v in zip(case["content"]["vars"], q[2])]
             other = by.get(("rhs", str([st, q[1]])))
             if other is not None and "ok" in other and [v for _, v in other["ok"]] != R[i]["ok"]:
